@@ -377,7 +377,7 @@ PROPS = {
                 'has relative eigen-gap > 1e-6, conditioning bound <= 0.05 and no k/(k+1) distance tie (others are counted '
                 'in trivial_skipped for the direction clause only; unit length, orientation and curvature range are '
                 'checked for every point).',
-        'assumptions': ['direction tolerance 16 eps (1+R/s)/gap with R the coordinate magnitude and s the neighbourhood spread (two-pass covariance in the scalar type)'],
+        'assumptions': ['direction tolerance 6 eps (1+R/s)/gap with R the coordinate magnitude and s the neighbourhood spread (two-pass covariance in the scalar type)'],
         'tiers': {'quick': {'deadline': 400, 'case_timeout': 120}, 'thorough': {'deadline': 3000, 'case_timeout': 600}},
         'technique': 'bounded-exhaustive configuration lattice on the real code; PCA reference in long double on the implementation own neighbourhoods, analytic normals for planar clouds, rotation differential oracle',
         'level_text': 'complete enumeration of the cloud / k / type / rotation / output-initialisation lattice with every '
